@@ -19,6 +19,9 @@ CLAIMED = {
  'C16': dict(
   text="For every path of up to N bytes over an alphabet that spells the compound and look-alike suffixes, and every single -E remap pair, Z3 shows on the MIR of parse_file/parser_for_file_path/try_parser_for_extension, against the suffix table obtained by executing language_parsers() itself: the grammar used is the entry of the shortest dotted suffix that is (after remap) a key, else of the whole file name, else the file is neither read nor parsed. parse_extensions/Args::validate: KEY=VALUE needs '=', mappings onto unsupported grammars are rejected, onto each of the 39 keys accepted.",
   note="Trusted: interpreter, string/path/HashMap models, stubs for the 23 grammar constructors, FileSystem::read_to_string and BlocksParser::parse. Not decided: clap's argument parsing, paths with '.', '..' or empty components, non-ASCII names."),
+ 'C15': dict(
+  text="For <=4 files with arbitrary (symbolic) walked / allow / ignore / named-in-diff flags, symbolic should_scan_files and several walk and map iteration orders, Z3 shows on the MIR of parse_blocks/parse_file that the files read are exactly (scan and walked and allow, or in diff) minus ignore, each once, and are the keys of the result. For every diff target path up to N bytes, line_changes_from_diff files it under the target minus exactly one leading b/, and skips removed files.",
+  note="Trusted: interpreter, HashMap/iterator/string models. Stubs (arbitrary within their contract): globset (allow/ignore are free booleans per path), ignore::Walk, FileSystem, BlocksParser::parse, unidiff::PatchSet::from_str. Not decided: glob semantics, hidden/git-ignored files, repository-root discovery, cwd, quoted paths."),
 }
 
 NOT_APPLICABLE = {
@@ -28,7 +31,7 @@ NOT_APPLICABLE = {
 }
 PENDING = "harness not built yet (planned, DESIGN.md section 4)"
 
-FIX_COMMITS = ["7840229", "fe70c83", "d9a5bb3"]
+FIX_COMMITS = ["7840229", "fe70c83", "d9a5bb3", "c089a2f"]
 
 
 def main():
